@@ -2,8 +2,11 @@
 package main
 
 import (
+	crand "crypto/rand"
 	"encoding/json"
+	"errors"
 	"fmt"
+	"io"
 	"net"
 	"regexp"
 	"strconv"
@@ -156,7 +159,7 @@ func genArgv(c *ev.Case) []string {
 
 func main() {
 	ev.MainIsolated("C14", "exploration", 40*time.Minute, func(r *ev.Run) {
-		r.Rule("seeded (original command, LOGNAME, SSH_CONNECTION, argv) tuples: JSON attribute objects, other JSON values, legacy texts (with and without a version), odd version strings, smuggling attempts, empty, bytes; LOGNAME empty/hostile; connection strings empty, leading space, IPv6, zone ids, tabs, malformed; argv of 0..8 arguments with embedded spaces. distinct_nontrivial = distinct inputs for which NewReqParam SUCCEEDED and every clause of the oracle was evaluated")
+		r.Rule("seeded (original command, LOGNAME, SSH_CONNECTION, argv) tuples: JSON attribute objects, other JSON values, legacy texts (with and without a version), odd version strings, smuggling attempts, empty, bytes; LOGNAME empty/hostile; connection strings empty, leading space, IPv6, zone ids, tabs, malformed; argv of 0..8 arguments with embedded spaces. distinct_nontrivial = distinct inputs for which NewReqParam SUCCEEDED and every clause of the oracle was evaluated Plus 900 requests in a row with the process entropy source (crypto/rand.Reader) down during requests 250..399: every id handed out is well-formed and never repeats an earlier one.")
 		r.Assume("reference decoders for 'what the client declared': encoding/json into a mirror struct, reference legacy tokenizer", "40-bit ids: at most one duplicate per 5000-call window, never two equal consecutive ids")
 		ring := ev.NewRing("NewReqParam", r.Seed, 43)
 		n := r.Pick(20000, 1000000)
@@ -279,8 +282,70 @@ func main() {
 		if r.Replay == nil {
 			ring.Stress(r, r.CaseAlways("stress", 0), 8, 2)
 		}
+		entropyOutage(r)
 		r.Floor(int64(r.Pick(20000, 1000000)), 1000)
 	})
+}
+
+// outageReader stands in for crypto/rand.Reader and fails while down is set.
+type outageReader struct {
+	inner io.Reader
+	down  bool
+}
+
+func (o *outageReader) Read(p []byte) (int, error) {
+	if o.down {
+		return 0, errors.New("scripted entropy outage")
+	}
+	return o.inner.Read(p)
+}
+
+// entropyOutage: 900 requests in a row; while requests 250..399 are handled (longer than any plausible batch of pre-fetched entropy lasts) the process entropy source is down. What
+// those requests get is not judged; every other request gets a well-formed transaction id, and no id is ever handed
+// out twice — before, across or after the outage. Runs alone (the source is process-wide).
+func entropyOutage(r *ev.Run) {
+	c := r.Case("entropy-outage", 0)
+	if c == nil {
+		return
+	}
+	orig := crand.Reader
+	o := &outageReader{inner: orig}
+	crand.Reader = o
+	defer func() { crand.Reader = orig }()
+	env := map[string]string{"SSH_ORIGINAL_COMMAND": `{"username":"u","hostname":"h","sshClientVersion":"8.1","ifVer":7}`, "LOGNAME": "alice", "SSH_CONNECTION": "10.0.0.1 1234 10.0.0.2 22"}
+	argv := []string{"gensign", "Regular", "NONS", "x"}
+	seen := map[string]int{}
+	judged := 0
+	for i := 0; i < 900; i++ {
+		o.down = i >= 250 && i < 400
+		var p *csr.ReqParam
+		var err error
+		r.Eval(1)
+		if r.Guard(c, "NewReqParam", map[string]any{"request": i, "entropy_source_down": o.down}, func() {
+			p, err = csr.NewReqParam(func(k string) string { return env[k] }, func() []string { return argv })
+		}) {
+			return
+		}
+		if err != nil || p == nil || (o.down && p.TransID == "") {
+			continue // while the source is down a request may be refused or go without an id; an id that IS handed out is judged
+		}
+		if !transRE.MatchString(p.TransID) {
+			r.Violation(c, "transid-format:after-entropy-outage", fmt.Sprintf("request %d: TransID=%q", i, p.TransID), map[string]any{"request": i})
+			return
+		}
+		if first, dup := seen[p.TransID]; dup {
+			r.Violation(c, "transid-repeated:entropy-outage", fmt.Sprintf("request %d got transaction id %s, which request %d had been given (the entropy source was down during requests 250..399)", i, p.TransID, first), map[string]any{"request": i, "first": first})
+			return
+		}
+		seen[p.TransID] = i
+		judged++
+	}
+	if judged < 700 {
+		r.Inconclusive(fmt.Sprintf("entropy-outage: only %d of 900 requests were accepted", judged))
+		return
+	}
+	r.Count("requests around an entropy outage with fresh transaction ids", judged)
+	r.Nontrivial("entropy-outage")
 }
 
 // canonVer returns "maj.min" with both parts as uint16 decimal numbers, or "" if
